@@ -16,7 +16,7 @@ RULE = ('shape D (one attribute deep): set role/name x one template column over 
         'supported codes x count {0,1,2} x 0-2 objects whose component ranges over {omitted, absent, every subset of '
         'overriding {C,R,U,V}}; shape W (across columns): every 2-3 column template over {ordinary with default, ordinary '
         'without, invariant} x every legal object shape word over {override, absent, trailing-omitted} x 0-2 objects; '
-        'shape F (across records): 1-2 logical files x 0-2 further sets x an encrypted EFLR / IFLR at every position x '
+        'shape F (across records): 1-2 logical files x 0-2 further sets (among them a second ORIGIN and a WELL-REFERENCE set) x an encrypted EFLR / IFLR at every position x '
         '{one segment, split across a visible record boundary}. non-trivial = anything but a single default column with no '
         'objects; outcome = hash of the decoded tables')
 ASSUMPTIONS = ['a cell is marked absent iff the object attribute is None or its component descriptor is the absent-attribute role (either marking accepted)',
@@ -387,6 +387,11 @@ def extra_sets():
                       {'name': (0, 0, b'P2'), 'comps': ['absent']}]),
         mkset(2, [{'label': b'ONLY', 'inv': True, 'code': 16, 'values': [7]}], [{'name': (0, 0, b'E1'), 'comps': []}]),
         mkset(3, [{'label': b'A', 'code': 23, 'count': 2, 'values': vals(23, 2)}], []),
+        # a logical file may hold further ORIGIN sets and a WELL-REFERENCE set (RP66V1 5.2, 5.2.2): they are tables like any other
+        {'type': b'ORIGIN', 'name': b'OR1', 'template': [{'label': b'FILE-ID', 'code': 20}, {'label': b'FILE-SET-NUMBER', 'code': 18}],
+         'objects': [{'name': (7, 0, b'SECOND_ORIGIN'), 'comps': [{'values': [b'HOLE 2']}, {'values': [42]}]}]},
+        {'type': b'WELL-REFERENCE', 'template': [{'label': b'PERMANENT-DATUM', 'code': 20}, {'label': b'ABOVE-PERMANENT-DATUM', 'code': 2, 'units': b'm'}],
+         'objects': [{'name': (2, 0, b'WR'), 'comps': [{'values': [b'MSL']}, {'values': [12.5]}]}]},
     ]
 
 
@@ -416,7 +421,7 @@ def gen_F(tier):
 def shards(tier):
     out = [{'gen': 'D', 'code': c, 'part': p, 'of': 4} for c in CODES for p in range(4)]
     out += [{'gen': 'W', 'ncols': n, 'vcode': v} for n in (2, 3) for v in ([19] if tier == 'quick' else [19, 21, 24])]
-    out += [{'gen': 'F', 'layout': lay} for lay in ('one', 'split')]
+    out += [{'gen': 'F', 'layout': lay, 'part': p, 'of': 12} for lay in ('one', 'split') for p in range(12)]
     return out
 
 
@@ -465,6 +470,8 @@ def run_shard(shard, tier):
     res = Result()
     if shard['gen'] == 'F':
         for i, (files, ins) in enumerate(gen_F(tier)):
+            if i % shard['of'] != shard['part']:
+                continue
             bad, outcome = check_files(files, shard['layout'])
             # differential: inserting an encrypted record leaves the tables unchanged (expected side already excludes it)
             case = {'files': jsonable(files), 'layout': shard['layout']}
